@@ -131,6 +131,9 @@ package rapid
 //@   requires r != nil && init != nil && init.EnvironmentVariables != nil
 //@ func (*rapidContext).HandleInvoke
 //@   requires r != nil && invoke != nil && sbInfoFromInit.EnvironmentVariables != nil
+// C06 ("a JSON error naming the first fault"): a fault recorded between two invocations (the runtime exits while parked in
+// next) is what the next invocation's failure names; the handler forgets the error trace of the last invocation, not the fault
+//@   ensures [C06: the-recorded-first-fault-is-not-forgotten-by-the-next-invocation] delta(FirstFatalForgotten) == 0
 //@ func handleInvoke
 //@   requires execCtx != nil && invokeRequest != nil && sbInfoFromInit.EnvironmentVariables != nil
 //@   requires held(execCtx)
@@ -212,9 +215,13 @@ package rapid
 //@ event ApiListen = call rapi.(*Server).Listen
 //@ event ApiPortRead = call rapi.(*Server).Port
 //@ event ApiPortValue = ret rapi.(*Server).Port
+//@ event InitTypeStored = call appctx.StoreInitType
+//@ event ApiServerBuilt = call rapi.NewServer
 //@ event ApiHostValue = ret rapi.(*Server).Host
 //@ func Start
 //@   ensures [C16: the-published-address-splits-back-into-the-server's-host-and-port] hostOf(r2) == lastret(ApiHostValue) && portOf(r2) == itoa(lastret(ApiPortValue))
+// C12 / C18 ("snapshot-restore calls exist only in snapshot mode"): the router reads the init type when it is built
+//@   ensures [C12: the-init-type-is-known-before-the-routes-are-built] delta(InitTypeStored) == 1 && delta(ApiServerBuilt) == 1 && first(InitTypeStored) < first(ApiServerBuilt) && lastarg(InitTypeStored, 1) == s.InitCachingEnabled
 //@   ensures [C16: the-published-address-is-read-after-listening] delta(ApiListen) == 1 && delta(ApiPortRead) == 1 && first(ApiListen) < first(ApiPortRead)
 //@   ensures [nothing-is-owed-before-the-first-invocation-start] typeis(r0, *rapidContext) && r0.(*rapidContext).invokeRuntimeDoneSent
 // the runtime-done bookkeeping of one invocation: rtDoneBooked(c) relates the flag on the context to the ghost count
@@ -376,8 +383,13 @@ package rapid
 //@ const supervisorBlockingMaxMillis == 9000
 
 // waiting for the exit notifications: success only after every recorded channel was closed; the table is then empty
+// C09 ("or after the fixed 2 s grace", "within the deadline plus a bounded allowance"): one grace period for all processes
+// together, started before the first wait, not one per process
+//@ event ExitGraceStarted = call time.After
 //@ func (*shutdownContext).clearExitedChannel
 //@   requires s != nil
+//@   ensures [C09: one-grace-period-for-all-processes] delta(ExitGraceStarted) == 1 && lastarg(ExitGraceStarted, 0) == maxProcessExitWait
+//@   loop range channels: invariant [grace-started-once-before-the-waits] delta(ExitGraceStarted) == 1
 //@   ensures [table-emptied-on-success] r0 == nil ==> len(s.runtimeDomainExited) == 0
 
 // ---------------------------------------------------------------------------------------------
